@@ -9,6 +9,7 @@ pub mod c08;
 pub mod c09;
 pub mod c10;
 pub mod c11;
+pub mod c12;
 pub mod c13;
 pub mod c14;
 pub mod c15;
@@ -39,6 +40,7 @@ pub fn run(prop: &str, tier: Tier, only: Option<(String, String)>) -> i32 {
         "C09" => c09::run(&mk("model_checking")),
         "C10" => c10::run(&mk("model_checking")),
         "C11" => c11::run(&mk("model_checking")),
+        "C12" => c12::run(&mk("fault_enumeration")),
         "C13" => c13::run(&mk("fault_enumeration")),
         "C14" => c14::run(&mk("model_checking")),
         "C15" => c15::run(&mk("exploration")),
